@@ -120,6 +120,11 @@ func IntAlphabet(p refper.Params) []int64 {
 	return out
 }
 
+// LargeDefault makes the default size of every variable-size string 200 units (where its constraint allows) instead
+// of the smallest one: a second base value around which the deviations are explored (several long fields in one
+// message - two-octet length determinants, buffers that grow - meet only there). Set by the caller, not by picks.
+var LargeDefault bool
+
 // SizeAlphabet: boundary sizes of a size constraint; maxUnbounded caps sizes of unbounded types.
 func SizeAlphabet(p refper.Params, isList bool) []int64 {
 	lb, ub := int64(0), int64(-1)
@@ -152,6 +157,9 @@ func SizeAlphabet(p refper.Params, isList bool) []int64 {
 			hi = 16383
 		}
 	}
+	if LargeDefault && !isList && hi >= 200 && lb <= 200 && lb != ub {
+		def = 200
+	}
 	out := uniq(def, vs, lb, hi)
 	if p.SizeExt && ub >= 0 && !isList {
 		out = append(out, ub+1)
@@ -174,7 +182,9 @@ func content(kind, n int, printable bool) []byte {
 			b[i] = 0xff
 		}
 		if printable {
-			b[i] = "Aa0 z9-"[(i+kind)%7]
+			// every character of the PrintableString alphabet (X.680 41.4) occurs
+			const ps = "ABCDEFGHIJKLMNOPQRSTUVWXYZabcdefghijklmnopqrstuvwxyz0123456789 '()+,-./:=?"
+			b[i] = ps[(i*7+kind*13)%len(ps)]
 		}
 	}
 	return b
